@@ -46,7 +46,7 @@ macro_rules! mat_impl {
             fn mk(a: &[$T]) -> Self {
                 let mut x = [0.0 as $T; $n * $n];
                 x.copy_from_slice(&a[..$n * $n]);
-                $M::from_cols_array(&x)
+                <$M as Junk>::junk($M::from_cols_array(&x))
             }
             fn to(&self) -> [$T; 16] {
                 let a = self.to_cols_array();
@@ -108,9 +108,29 @@ macro_rules! mat_impl {
     };
 }
 
+/// Mat3A operands and its Vec3A right-hand sides carry junk in the padding lanes of their 16-byte columns
+/// (no result may depend on it); every other type is packed
+trait Junk: Sized {
+    fn junk(self) -> Self {
+        self
+    }
+}
+impl Junk for Mat2 {}
+impl Junk for Mat3 {}
+impl Junk for Mat4 {}
+impl Junk for DMat2 {}
+impl Junk for DMat3 {}
+impl Junk for DMat4 {}
+impl Junk for Mat3A {
+    fn junk(self) -> Self {
+        let j = |v: Vec3A, h: u32| Vec3A::from_vec4(glam::Vec4::new(v.x, v.y, v.z, f32::from_bits(h)));
+        Mat3A::from_cols(j(self.x_axis, 0x7fc0_0001), j(self.y_axis, 0xff80_0000), j(self.z_axis, 0x7149_f2ca ^ (self.x_axis.x.to_bits() >> 11)))
+    }
+}
+
 mat_impl!(Mat2, f32, 2, Vec2, mul_mat2, add_mat2, sub_mat2, mul_vec2, |_a, _v, _o| {});
 mat_impl!(Mat3, f32, 3, Vec3, mul_mat3, add_mat3, sub_mat3, mul_vec3, |a, v, o| {
-    let va = Vec3A::from_slice(&v[..3]);
+    let va = Vec3A::from_vec4(glam::Vec4::new(v[0], v[1], v[2], f32::from_bits(0x7f80_0000 | (v[1].to_bits() >> 9))));
     o.push(("Mat3*Vec3A", pad((*a * va).to_array())));
     o.push(("mul_vec3a", pad(a.mul_vec3a(va).to_array())));
 });
